@@ -28,7 +28,7 @@ def obligations(tier, H):
         shape = {"part": "emit-text", "text": text}
         add("ctype: str", "H.h_emit_text({0!r}, ctype)".format(shape), ["len(ctype) <= {0}".format(slen)], shape)
     # ---- request target -----------------------------------------------------------------
-    plen = 3 if thorough else 2
+    plen = 2  # (3 characters each does not finish within the budget: 113 s for one scheme in the probe)
     for scheme in ("http", "https", "unix+http", "HTTP"):
         for has_query in (False, True):
             for prefix in ("", "/a%20b", "/x/"):
